@@ -307,3 +307,180 @@ def m_to_string(it, p, callee, args):
 def m_string_deref(it, p, callee, args):
     s = deref(args[0])
     return s.f[0] if isinstance(s, Tup) and s.name == "String" else args[0]
+
+
+# ----------------------------------------------------------------------------- byte slices / arrays
+def elems(container):
+    return container.f if isinstance(container, Tup) else container.items
+
+
+def mk_slice(it, base_ref, start, length):
+    """&[u8] / &mut [u8]: (reference to the backing array/Seq, concrete start, concrete length)"""
+    return Tup([base_ref, it.const_int(start, "usize"), it.const_int(length, "usize")], "Slice")
+
+
+def slice_parts(v):
+    if not (isinstance(v, Tup) and v.name == "Slice"):
+        raise Unsupported(f"expected a slice, got {v}")
+    st, ln = z3.simplify(v.f[1].t), z3.simplify(v.f[2].t)
+    return v.f[0], st.as_long(), ln.as_long()
+
+
+def slice_items(v):
+    base, st, ln = slice_parts(v)
+    return elems(deref(base))[st:st + ln]
+
+
+def _cint(x):
+    t = z3.simplify(x.t)
+    if not (z3.is_bv_value(t) or z3.is_int_value(t)):
+        raise Unsupported("slice bound is not concrete on this path")
+    return t.as_long()
+
+
+def m_array_index_range(it, p, callee, args):
+    """<[u8; N] | [u8] as Index/IndexMut<Range|RangeTo|RangeFrom|RangeFull>>::index(_mut)"""
+    base, rng = args
+    if isinstance(base, Tup) and base.name == "Slice":
+        bref, bst, bln = slice_parts(base)
+    else:
+        bref, bst, bln = base, 0, len(elems(deref(base)))
+    kind = "full"
+    if "RangeTo<" in callee: kind = "to"
+    elif "RangeFrom<" in callee: kind = "from"
+    elif "RangeFull" in callee: kind = "full"
+    elif "Range<" in callee: kind = "range"
+    lo, hi = 0, bln
+    if kind == "to": hi = _cint(rng.f[0])
+    elif kind == "from": lo = _cint(rng.f[0])
+    elif kind == "range": lo, hi = _cint(rng.f[0]), _cint(rng.f[1])
+    if lo > hi or hi > bln:
+        raise mir.Panic(f"slice index {lo}..{hi} out of range for length {bln}")
+    return mk_slice(it, bref, bst + lo, hi - lo)
+
+
+def m_copy_from_slice(it, p, callee, args):
+    dst, src = args
+    dref, dst_st, dln = slice_parts(dst)
+    s_items = slice_items(src)
+    if dln != len(s_items):
+        raise mir.Panic("copy_from_slice: source slice length does not match destination slice length")
+    d = elems(deref(dref))
+    for i, x in enumerate(s_items):
+        d[dst_st + i] = x
+    return Unit()
+
+
+def m_buf_advance(it, p, callee, args):
+    cell_ref, n = args
+    sl = deref(cell_ref)
+    base, st, ln = slice_parts(sl)
+    k = _cint(n)
+    if k > ln:
+        raise mir.Panic("Buf::advance past the end")
+    sl.f[1] = it.const_int(st + k, "usize")
+    sl.f[2] = it.const_int(ln - k, "usize")
+    return Unit()
+
+
+def m_buf_get_int(nbytes, little, signed):
+    def f(it, p, callee, args):
+        sl = deref(args[0])
+        base, st, ln = slice_parts(sl)
+        if ln < nbytes:
+            raise mir.Panic("Buf::get_*: not enough bytes")
+        bs = elems(deref(base))[st:st + nbytes]
+        order = list(reversed(bs)) if little else bs       # most significant first
+        t = order[0].t
+        for b in order[1:]:
+            t = z3.Concat(t, b.t)
+        sl.f[1] = it.const_int(st + nbytes, "usize")
+        sl.f[2] = it.const_int(ln - nbytes, "usize")
+        return Int(t, 8 * nbytes, signed)
+    return f
+
+
+def m_usize_min(it, p, callee, args):
+    a, b = args
+    return Int(it.be.ite(it.be.ule(a.t, b.t, a.w), a.t, b.t), a.w, a.signed)
+
+
+# ----------------------------------------------------------------------------- Wrapping<T>
+def _w(v):
+    return v.f[0]
+
+
+def m_wrapping(op, assign):
+    def f(it, p, callee, args):
+        be = it.be
+        a = deref(args[0]) if assign else args[0]
+        b = args[1]
+        x = _w(a)
+        if op == "shl":
+            sh = b if isinstance(b, Int) else _w(b)
+            amt = be.resize(be.and_(sh.t, be.const(x.w - 1, sh.w), sh.w), sh.w, x.w, False)
+            r = Int(be.shl(x.t, amt, x.w), x.w, x.signed)
+        else:
+            y = _w(b)
+            r = Int({"mul": be.mul, "add": be.add, "sub": be.sub, "xor": be.xor, "or": be.or_, "and": be.and_}[op](x.t, y.t, x.w), x.w, x.signed)
+        if assign:
+            a.f[0] = r
+            return Unit()
+        return Tup([r], "Wrapping")
+    return f
+
+
+WRAPPING_MODELS = {
+    r"^<Wrapping<i64> as MulAssign>::mul_assign$": m_wrapping("mul", True),
+    r"^<Wrapping<i64> as AddAssign>::add_assign$": m_wrapping("add", True),
+    r"^<Wrapping<i64> as BitXorAssign>::bitxor_assign$": m_wrapping("xor", True),
+    r"^<Wrapping<i64> as Mul>::mul$": m_wrapping("mul", False),
+    r"^<Wrapping<i64> as Add>::add$": m_wrapping("add", False),
+    r"^<Wrapping<i64> as BitXor>::bitxor$": m_wrapping("xor", False),
+    r"^<Wrapping<i64> as Shl<usize>>::shl$": m_wrapping("shl", False),
+}
+
+
+# ----------------------------------------------------------------------------- Range<usize> / Rev<Range<usize>>
+def m_range_rev(it, p, callee, args):
+    return Tup([args[0]], "Rev")
+
+
+def m_rev_range_next(it, p, callee, args):
+    rev = deref(args[0])
+    rng = rev.f[0]
+    lo, hi = _cint(rng.f[0]), _cint(rng.f[1])
+    if lo < hi:
+        rng.f[1] = it.const_int(hi - 1, "usize")
+        return some(it, it.const_int(hi - 1, "usize"))
+    return none(it)
+
+
+def m_range_next(it, p, callee, args):
+    rng = deref(args[0])
+    lo, hi = _cint(rng.f[0]), _cint(rng.f[1])
+    if lo < hi:
+        rng.f[0] = it.const_int(lo + 1, "usize")
+        return some(it, it.const_int(lo, "usize"))
+    return none(it)
+
+
+RANGE_MODELS = {
+    r"^<std::ops::Range<usize> as Iterator>::rev$": m_range_rev,
+    r"^<Rev<std::ops::Range<usize>> as IntoIterator>::into_iter$": m_identity,
+    r"^<std::ops::Range<usize> as IntoIterator>::into_iter$": m_identity,
+    r"^<Rev<std::ops::Range<usize>> as Iterator>::next$": m_rev_range_next,
+    r"^<std::ops::Range<usize> as Iterator>::next$": m_range_next,
+}
+
+SLICE_MODELS = {
+    r"^<\[u8; \d+\] as (?:std::ops::)?IndexMut<.*>>::index_mut$": m_array_index_range,
+    r"^<\[u8; \d+\] as (?:std::ops::)?Index<.*>>::index$": m_array_index_range,
+    r"^<\[u8\] as (?:std::ops::)?Index<.*>>::index$": m_array_index_range,
+    r"^<\[u8\] as (?:std::ops::)?IndexMut<.*>>::index_mut$": m_array_index_range,
+    r"core::slice::<impl \[u8\]>::copy_from_slice$": m_copy_from_slice,
+    r"^<&\[u8\] as Buf>::advance$": m_buf_advance,
+    r"^<&\[u8\] as Buf>::get_i64_le$": m_buf_get_int(8, True, True),
+    r"^<&\[u8\] as Buf>::get_i64$": m_buf_get_int(8, False, True),
+    r"^<usize as Ord>::min$": m_usize_min, r"^std::cmp::min::<usize>$": m_usize_min,
+}
